@@ -64,15 +64,20 @@ static void op_hmac (int n, char **tok)
   int isn; size_t kl, tl; unsigned char *k0 = unhex (tok[2], &kl, &isn), *t0 = unhex (tok[3], &tl, &isn), *kb, *tb;
   unsigned char *k = place (k0 ? k0 : (unsigned char *)"", kl, 3, &kb), *t = place (t0 ? t0 : (unsigned char *)"", tl, 5, &tb);
   unsigned char dig[64]; size_t dl = 0;
-  if (!strcmp (tok[1], "sha1")) { hmac_sha1_process_data (t, tl, k, kl, dig); dl = 20; }
-  else if (!strcmp (tok[1], "sha256")) { HMAC_SHA256_Buf (k, kl, t, tl, dig); dl = 32; }
+  /* XC_STACKSCAN (library built at -O0): the key, its pads and - for a key longer than the block - the hashed key HMAC really uses must be gone
+     from the stack region the primitive used when it returns */
+  static int hscan = -1; volatile int hstk = 0;
+  if (hscan < 0) hscan = getenv ("XC_STACKSCAN") != NULL;
+  if (hscan) { wset_build (k, kl); stack_poison (); }
+  if (!strcmp (tok[1], "sha1")) { hmac_sha1_process_data (t, tl, k, kl, dig); if (hscan) hstk = stack_scan (); dl = 20; }
+  else if (!strcmp (tok[1], "sha256")) { HMAC_SHA256_Buf (k, kl, t, tl, dig); if (hscan) hstk = stack_scan (); dl = 32; }
   else if (!strcmp (tok[1], "gost256"))
     {
       if (kl < 32 || kl > 64) { printf ("d=precondition\n"); goto out; }
       gost_hmac_256_t gb; gost_hmac256 (k, kl, t, tl, dig, &gb); dl = 32;
       if (!all_zero (&gb, sizeof gb)) { printf ("d=NOTWIPED\n"); goto out; }
     }
-  printf ("d="); puthex (dig, dl); printf ("\n");
+  printf ("d="); puthex (dig, dl); if (hscan) printf (" stk=%d", hstk); printf ("\n");
 out:
   free (kb); free (tb); free (k0); free (t0);
 }
